@@ -65,3 +65,37 @@ Proof.
   split; [split; intros; cbn; [symmetry; apply Permutation_rev|apply isort_perm]|].
   split; [vm_compute; reflexivity|]. split; vm_compute; reflexivity.
 Qed.
+
+(* ---- input paths on --stdin (config.rs input_paths after fix 96dbe61; StdinModel.v, qualified).  "The body is the same
+   whether the input paths are given as arguments or on standard input": a list of paths written one per line is read back
+   EXACTLY - every byte string without a line feed that does not end in a carriage return: names that are not UTF-8, names
+   ending in blanks or tabs, empty lines; CRLF terminators lose their CR; a last line without terminator counts. ---- *)
+From FV Require StdinModel StdinProofs.
+
+Theorem C13_stdin_paths_read_back :
+  forall ps : list (list N),
+    (forall p, In p ps -> StdinProofs.no_nl p /\ last p 0%N <> 13%N) ->
+    StdinModel.stdin_paths (concat (map (fun p => p ++ [10%N]) ps)) = ps.
+Proof. exact StdinProofs.stdin_roundtrip. Qed.
+Print Assumptions C13_stdin_paths_read_back.
+
+Theorem C13_stdin_paths_crlf :
+  forall ps : list (list N),
+    (forall p, In p ps -> StdinProofs.no_nl p) ->
+    StdinModel.stdin_paths (concat (map (fun p => p ++ [13%N; 10%N]) ps)) = ps.
+Proof. exact StdinProofs.stdin_roundtrip_crlf. Qed.
+Print Assumptions C13_stdin_paths_crlf.
+
+Theorem C13_stdin_last_line_unterminated :
+  forall (ps : list (list N)) (p : list N),
+    (forall q, In q ps -> StdinProofs.no_nl q /\ last q 0%N <> 13%N) ->
+    StdinProofs.no_nl p -> p <> [] -> last p 0%N <> 13%N ->
+    StdinModel.stdin_paths (concat (map (fun q => q ++ [10%N]) ps) ++ p) = ps ++ [p].
+Proof. exact StdinProofs.stdin_last_unterminated. Qed.
+Print Assumptions C13_stdin_last_line_unterminated.
+
+Example C13_stdin_paths_inhabited :
+  StdinModel.stdin_paths ([100; 233; 10] ++ [111; 32; 9; 10] ++ [10] ++ [97; 13; 10] ++ [122])%N
+  = [[100; 233]; [111; 32; 9]; []; [97]; [122]]%N.
+Proof. exact StdinProofs.stdin_example. Qed.
+
